@@ -1,4 +1,7 @@
+#[cfg(not(any(kani, netflow_parser_verif)))]
 use std::collections::BTreeMap;
+#[cfg(any(kani, netflow_parser_verif))]
+use crate::verif_shim::VMap as BTreeMap;
 use std::net::IpAddr;
 
 use crate::NetflowPacket;
